@@ -14,6 +14,16 @@ Main theorems (all for EVERY item list and EVERY page size ≥ 1):
   checked on every generated history by the harness/driver).
   changes_token_type_bound             a ReadChanges token issued for type T is accepted with T' iff T = T'
   malformed_token_rejected             an accepted token is literally `position|type` (nothing else is read as a position)
+  liststores_sorted_after_filter       memory ListStores (`Model.ListStoresMem`: collect in map order → IDs filter in caller
+  liststores_paging                    order → name filter → stable sort by id → clamp/cut): the paged list is the matching
+                                       stores in id order for EVERY map order and EVERY order of the (duplicate-free) id
+                                       list, also when both change between two page requests; the statement order is pinned
+                                       by tie_memStoresOrder / tie_memStores_sort_after_filters; the other order (sort
+                                       first) follows the caller's order: liststores_sort_before_filter_witness.
+  paging_changes_needs_sorted_log      the StrictSorted hypothesis of paging_changes is needed (an unsorted log loses an
+                                       entry); for the memory backend it rests on tie_memWrite_stamps_under_lock (the
+                                       extractor fact of C15: `now`/entropy are taken after mutexTuples.Lock()) and on
+                                       C15.changelog_in_ulid_order_mem.
   offset_tokens_not_misread           memory `read` answers an offset token with the window at that offset or rejects
                                        it (`FullOffsetTokensNotMisread`, full since commit badbaa3 = finding F22 fixed;
                                        the pre-fix tail `memReadPageBeforeFix` keeps its negation witnesses).
@@ -23,10 +33,14 @@ import OpenFGAVerif.Model.Token
 import OpenFGAVerif.Proofs.Paging
 import OpenFGAVerif.Props.C28
 import OpenFGAVerif.Gen.Paging
+import OpenFGAVerif.Model.ListStoresMem
+import OpenFGAVerif.Proofs.ListStoresMem
 import OpenFGAVerif.Gen.Token
+import OpenFGAVerif.Gen.StoreChanges
 
 namespace OpenFGAVerif.C14
 open OpenFGAVerif.Model.Paging OpenFGAVerif.Proofs.Paging
+open OpenFGAVerif.Model.ListStoresMem
 open OpenFGAVerif.Model.Token (serialize deserialize b64encode b64decode)
 
 /-! ## Ties: the paging code the model mirrors, fragment by fragment -/
@@ -292,6 +306,111 @@ theorem clamp_window {α : Type} (items : List α) (ps : Nat) (n : Int) :
     (memClampPage items ps n).1 <+: items.drop (max 0 (min n (items.length : Int))).toNat := by
   unfold memClampPage
   exact List.take_prefix _ _
+
+/-! ## memory ListStores: collect → IDs filter → name filter → sort → cut, for every map order and id-list order -/
+
+theorem tie_memStoresOrder : Gen.Paging.memStoresOrder =
+    ["_, span := tracer.Start(ctx, \"memory.ListStores\")", "defer span.End()", "s.mutexStores.RLock()", "defer s.mutexStores.RUnlock()", "stores := make([]*openfgav1.Store, 0, len(s.stores))", "range s.stores", "if len(options.IDs) > 0", "if options.Name != \"\"", "sort.SliceStable(stores, …)", "var err error", "var from int", "if options.Pagination.From != \"\"", "pageSize := storage.DefaultPageSize", "if options.Pagination.PageSize > 0", "from = max(0, min(len(stores), from))", "to := min(len(stores), from+pageSize)", "res := stores[from:to]", "if len(res) == 0", "continuationToken := \"\"", "if to != len(stores)", "return res, continuationToken, nil"] := by
+  rfl
+
+/-- the statements `tie_memStoresPaging` does not show, in full: the collect loop (`collected`), the IDs filter
+(`idsFilter`: caller order outside, slice order inside), the name filter (`nameFilter`), the empty-window return (`cutPage`) -/
+theorem tie_memStoresSteps : Gen.Paging.memStoresSteps =
+    ["for _, t := range s.stores { stores = append(stores, t) }", "if len(options.IDs) > 0 { filteredStores := make([]*openfgav1.Store, 0, len(stores)) for _, storeID := range options.IDs { for _, store := range stores { if store.GetId() == storeID { filteredStores = append(filteredStores, store) } } } stores = filteredStores }", "if options.Name != \"\" { filteredStores := make([]*openfgav1.Store, 0, len(stores)) for _, store := range stores { if store.GetName() == options.Name { filteredStores = append(filteredStores, store) } } stores = filteredStores }", "if len(res) == 0 { return nil, \"\", nil }"] := by
+  rfl
+
+/-- position of the (first) statement with head `h` -/
+def stmtIdx (order : List String) (h : String) : Option Nat := order.findIdx? (· == h)
+
+/-- `a` and `b` both occur and the first `a` stands before the first `b` -/
+def stmtBefore (order : List String) (a b : String) : Bool :=
+  match stmtIdx order a, stmtIdx order b with
+  | some i, some j => decide (i < j)
+  | _, _ => false
+
+/-- **the statement order the theorem depends on**: the map is collected first, the ONE sort statement stands after both
+filter statements and before the clamp and the slice expression `res := stores[from:to]` (so the offset token indexes
+the id-sorted list, not a list in caller order) -/
+theorem tie_memStores_sort_after_filters :
+    stmtBefore Gen.Paging.memStoresOrder "range s.stores" "if len(options.IDs) > 0" = true ∧
+    stmtBefore Gen.Paging.memStoresOrder "if len(options.IDs) > 0" "sort.SliceStable(stores, …)" = true ∧
+    stmtBefore Gen.Paging.memStoresOrder "if options.Name != \"\"" "sort.SliceStable(stores, …)" = true ∧
+    stmtBefore Gen.Paging.memStoresOrder "sort.SliceStable(stores, …)" "from = max(0, min(len(stores), from))" = true ∧
+    stmtBefore Gen.Paging.memStoresOrder "from = max(0, min(len(stores), from))" "res := stores[from:to]" = true ∧
+    Gen.Paging.memStoresOrder.count "sort.SliceStable(stores, …)" = 1 := by
+  decide
+
+/-- **ListStores (memory): the list that is paged is the list of matching stores in id order** — independent of the
+order in which Go iterated over the store map for this call (`collected`: any permutation of the map's values) AND
+of the order of the caller's id list (duplicate-free; `keep` looks at membership only).  `values` = the map's values
+in id order (ids are the map keys: strictly increasing). -/
+theorem liststores_sorted_after_filter (f : Filter) (values collected : List Store)
+    (hs : values.Pairwise (fun a b => a.id < b.id)) (hperm : collected.Perm values) (hids : f.ids.Nodup) :
+    filteredSorted f collected = values.filter (keep f) :=
+  Proofs.ListStoresMem.filteredSorted_eq f values collected hs hperm hids
+
+/-- two calls with different map orders and differently ordered id lists give the same answer to the same token -/
+theorem liststores_order_irrelevant (ids ids' : List Nat) (name : String) (values collected collected' : List Store)
+    (hs : values.Pairwise (fun a b => a.id < b.id)) (hperm : collected.Perm values) (hperm' : collected'.Perm values)
+    (hids : ids.Nodup) (hp : ids'.Perm ids) (ps : Nat) (hps : 1 ≤ ps) (frm : Int) :
+    listStores { ids := ids', name := name } collected' ps frm = listStores { ids := ids, name := name } collected ps frm := by
+  rw [Proofs.ListStoresMem.listStores_eq _ values collected' hs hperm' (hp.nodup_iff.mpr hids) ps hps,
+    Proofs.ListStoresMem.listStores_eq _ values collected hs hperm hids ps hps,
+    Proofs.ListStoresMem.keep_perm_ids ids ids' name hp]
+
+/-- **ListStores (memory) paging**: following the offset tokens delivers every matching store exactly once, in id
+order, for every page size ≥ 1 — even when every page request is answered from another map order (`coll c`) and
+carries another permutation of the id list (`idsAt c`); composition with `paging_offset_clamp`. -/
+theorem liststores_paging (values : List Store) (hs : values.Pairwise (fun a b => a.id < b.id))
+    (ids : List Nat) (hids : ids.Nodup) (name : String)
+    (coll : Nat → List Store) (hcoll : ∀ c, (coll c).Perm values)
+    (idsAt : Nat → List Nat) (hidsAt : ∀ c, (idsAt c).Perm ids) (ps : Nat) (hps : 1 ≤ ps) :
+    (followListStores listStores coll idsAt name ps
+        ((values.filter (keep { ids := ids, name := name })).length + 1) 0 0).map List.flatten
+      = some (values.filter (keep { ids := ids, name := name })) := by
+  rw [Proofs.ListStoresMem.followListStores_eq values hs ids hids name coll hcoll idsAt hidsAt ps hps]
+  exact Proofs.Paging.paging_offset_clamp _ ps hps
+
+def st (i : Nat) : Store := { id := i, name := "a" }
+
+/-- **negative witness for the other statement order** (sort first, filters after): the result follows the caller's
+id order instead of the id order, and when the id list is permuted between two page requests the offset token points
+into a differently ordered list: store 0 is never delivered, store 1 twice.  (Today's order: `liststores_paging`.) -/
+theorem liststores_sort_before_filter_witness :
+    sortedFiltered { ids := [2, 0, 1] } [st 1, st 0, st 2] = [st 2, st 0, st 1] ∧
+    filteredSorted { ids := [2, 0, 1] } [st 1, st 0, st 2] = [st 0, st 1, st 2] ∧
+    (followListStores listStoresSortFirst (fun _ => [st 1, st 0, st 2])
+        (fun c => if c % 2 = 0 then [2, 0, 1] else [0, 1, 2]) "" 1 4 0 0).map List.flatten = some [st 2, st 1, st 1] ∧
+    (followListStores listStores (fun _ => [st 1, st 0, st 2])
+        (fun c => if c % 2 = 0 then [2, 0, 1] else [0, 1, 2]) "" 1 4 0 0).map List.flatten = some [st 0, st 1, st 2] := by
+  decide
+
+/-! ## ReadChanges: the log must be in ULID order -/
+
+/-- memory.Write takes `now` (from which every changelog ULID of the write is made) and the entropy source AFTER
+`s.mutexTuples.Lock()`: the SAME extractor fact as `C15.tie_mem_stamps_under_lock` (group StoreChanges,
+extract/facts_storechanges.go) — the reason why the memory changelog satisfies the `StrictSorted` hypothesis of
+`paging_changes` under concurrent writers (`C15.changelog_in_ulid_order_mem`). -/
+theorem tie_memWrite_stamps_under_lock :
+    Gen.StoreChanges.memStampsUnderLock = true ∧ Gen.StoreChanges.memStampOrder = ["lock", "now", "entropy"] := by
+  decide
+
+/-- **`paging_changes` needs its hypothesis**: on a log that is not in key order (a later entry with a smaller key —
+what a timestamp sampled before the lock produces under contention) following the ReadChanges tokens loses an entry:
+the log is [10, 30, 20], page size 1 delivers 10, then 30 (`key > 10`), then nothing (`key > 30`): 20 is skipped. -/
+theorem paging_changes_needs_sorted_log :
+    ¬ StrictSorted (fun x : Nat => x) (fun a b => decide (a < b)) [10, 30, 20] ∧
+    (followChanges (fun x : Nat => x) (fun a b => decide (a < b)) [10, 30, 20] 1 4 none).map List.flatten = some [10, 30] ∧
+    (followChanges (fun x : Nat => x) (fun a b => decide (a < b)) [10, 30, 20] 2 4 none).map List.flatten = some [10, 30] := by
+  refine ⟨?_, ?_, ?_⟩
+  · unfold StrictSorted; decide
+  · decide
+  · decide
+
+/-! non-vacuity of `liststores_sorted_after_filter` / `liststores_paging` -/
+example : [st 0, st 1, st 2, st 5].Pairwise (fun a b => a.id < b.id) ∧ [st 2, st 5, st 0, st 1].Perm [st 0, st 1, st 2, st 5] ∧
+    [5, 0, 1].Nodup := by decide
+example : filteredSorted { ids := [5, 0, 1] } [st 2, st 5, st 0, st 1] = [st 0, st 1, st 5] := by decide
 
 /-! ## Non-vacuity -/
 
